@@ -7,6 +7,8 @@
 -/
 import IcingaProofs.C08.Lemmas
 import IcingaProofs.C08.CalLemmas
+import IcingaProofs.C08.Nested
+import IcingaProofs.C08.CalCore
 
 namespace Icinga.C08
 
@@ -151,14 +153,31 @@ theorem updateRegion_window (p : Period) (u : UpdIn) (b e : Int) :
   simpa [Period.updateRegion, Period.covers] using this
 
 
+/-! ## Any nesting of includes and excludes -/
+
+/-- **nested_forest_spec.**  For every include/exclude forest of any depth (`PTree`), evaluated the way
+    the implementation does — every referenced period is updated over the same region before the
+    period that refers to it, each through `UpdateRegion` — and every instant of the region, `IsInside`
+    equals the property's recursive meaning `PTree.sem`: own ranges, united with the included periods
+    and minus the excluded ones, `prefer_includes` deciding the overlap, at every level.
+    By mutual induction over the forest (IcingaProofs/C08/Nested.lean). -/
+theorem nested_forest_spec (T : PTree) (b e t : Int) (hbe : b ≤ e) (hwf : T.WF) (hb : b ≤ t) (he : t ≤ e) :
+    (T.evalP b e).isInside t = T.sem t := by
+  rw [isInside_of_covers _ b e t (evalP_covers b e T) hb he]
+  exact (evalP_ok b e hbe T hwf).2 t
+
+/-- depth 3: 0–10 minus (2–8 minus 4–6) -/
+example :
+    let T := PTree.node false [(0, 10)] [] [PTree.node true [(2, 8)] [] [PTree.node true [(4, 6)] [] []]]
+    (T.evalP 0 20).segs = [(0, 2), (4, 6), (8, 10)] ∧ T.sem 5 = true ∧ T.sem 3 = false := by decide
+
 /-! ## Layer 2: calendar (lib/icinga/legacytimeperiod.cpp)
 
-  The full `scriptFunc_spec` (the model's `scriptFunc` output satisfies `calSpec` for every ranges
-  dictionary, window and well-behaved time zone) is NOT proved yet; the tie between the literal
-  model and the declarative predicate is checked by evaluation on every run (the driver evaluates
-  `calSpec` on the implementation's output and diffs the model against the implementation).  Proved so
-  far: the sub-lemmas about the two loops/computations that differ most between code and
-  specification, and the stride defect F-C08b.
+  The calendar model has a string reader and a token-level core (IcingaModel/C08/Calendar.lean).
+  The theorems below are about the core, for every token list, window and time-zone parameter
+  satisfying `TzOk` (every local day lasts 23–46 h, `localDay` is consistent with the midnights)
+  and, where a stride is counted, `TzDrift` (offsets at two midnights differ by < 12 h).  The reader
+  is tied to the code by the correspondence runs.
 -/
 
 /-- **nth_weekday_correct.**  `FindNthWeekday` terminates for every `n ≠ 0` and returns a day with the
@@ -209,46 +228,134 @@ theorem weekday_next_correct (D w : Int) (hw0 : 0 ≤ w) (hw7 : w < 7) :
       D + (7 - weekdayOf D + w) % 7 < D + 7 := by
   unfold weekdayOf; omega
 
-/-- **isInTimeRange_calendar_days_partial.**  `IsInTimeRange` compares instants and derives the stride's
-    day index from seconds.  Full statement wanted by the property: for every time zone in which
-    local midnights are monotone, `isInTimeRange` is "first ≤ D < end and every stride-th *calendar*
-    day".  That is false across a UTC-offset change (F-C08b, `stride_dst_counterexample`); proved with
-    the extra hypothesis that for a stride > 1 no offset change lies between the first day of the
-    range and `D`. -/
-theorem isInTimeRange_calendar_days_partial (tz : Tz) (b e stride D : Int)
-    (hb : mkDay tz D 0 < mkDay tz b 0 ↔ D < b) (he : mkDay tz D 0 < mkDay tz e 0 ↔ D < e)
-    (hs : 1 < stride → mkDay tz D 0 - mkDay tz b 0 = 86400 * (D - b)) :
+/-- **isInTimeRange_calendar_days.**  `IsInTimeRange` compares instants and derives the stride's day
+    index from the rounded distance of two local midnights; for every time zone satisfying `TzOk`
+    and `TzDrift` this is "first ≤ D < end, every stride-th *calendar* day counted from the first".
+    (Full statement since the repair of F-C08b, commit 3f58d09; before, the index was truncated
+    and March 30 matched `2026-03-27 - 2026-04-03 / 2` under Europe/Berlin.) -/
+theorem isInTimeRange_calendar_days (tz : Tz) (h : TzOk tz) (hd : TzDrift tz) (b e stride D : Int) :
     isInTimeRange tz b e stride D =
-      (decide (b ≤ D) && decide (D < e) && (decide (stride ≤ 1) || (D - b) % stride == 0)) := by
-  unfold isInTimeRange
-  simp only
-  by_cases h1 : mkDay tz D 0 < mkDay tz b 0
-  · have : D < b := hb.mp h1
-    simp [h1]; omega
-  · have h1' : b ≤ D := by have := mt hb.mpr h1; omega
-    by_cases h2 : mkDay tz D 0 ≥ mkDay tz e 0
-    · have : ¬ D < e := fun h => by have := he.mpr h; omega
-      simp [h1, h2, this]
-    · have h2' : D < e := he.mp (by omega)
-      simp only [h1, h2, or_self, if_false, h1', h2', decide_true, Bool.true_and]
-      by_cases h3 : 1 < stride
-      · rw [hs h3, Int.mul_ediv_cancel_left _ (by decide : (86400 : Int) ≠ 0)]
-        have hnn : 0 ≤ (D - b) % stride := Int.emod_nonneg _ (by omega)
-        by_cases h4 : (D - b) % stride = 0
-        · simp [h3, h4]
-        · have : (D - b) % stride > 0 := by omega
-          simp [h3, h4, this]
-      · have : stride ≤ 1 := by omega
-        simp [h3, this]
+      (decide (b ≤ D) && decide (D < e) && (decide (stride ≤ 1) || (D - b) % stride == 0)) :=
+  isInTimeRange_days tz h hd b e stride D
 
 /-- Europe/Berlin around the change to summer time on 2026-03-29 01:00 UTC. -/
 def berlin2026 : Tz := [(0, 3600), (1774746000, 7200)]
 
-/-- **stride_dst_counterexample** (F-C08b).  `2026-03-27 - 2026-04-03 / 2` under Europe/Berlin: March 30 is
-    the 4th day of the range (index 3, odd) and yet matches, because 3 days − 1 hour is 2 when divided
-    by 86400. -/
-theorem stride_dst_counterexample :
-    isInTimeRange berlin2026 (daysFromCivil 2026 3 27) (daysFromCivil 2026 4 4) 2 (daysFromCivil 2026 3 30) = true ∧
-    (daysFromCivil 2026 3 30 - daysFromCivil 2026 3 27) % 2 = 1 := by decide
+/-- Regression for F-C08b: `2026-03-27 - 2026-04-03 / 2` under Europe/Berlin no longer matches March 30
+    (index 3) and matches March 29 and 31 (indices 2, 4). -/
+example :
+    isInTimeRange berlin2026 (daysFromCivil 2026 3 27) (daysFromCivil 2026 4 4) 2 (daysFromCivil 2026 3 30) = false ∧
+    isInTimeRange berlin2026 (daysFromCivil 2026 3 27) (daysFromCivil 2026 4 4) 2 (daysFromCivil 2026 3 29) = true ∧
+    isInTimeRange berlin2026 (daysFromCivil 2026 3 27) (daysFromCivil 2026 4 4) 2 (daysFromCivil 2026 3 31) = true := by decide
+
+/-- The hypotheses on the time-zone parameter are satisfiable (UTC = empty offset list). -/
+theorem tz_hypotheses_satisfiable : TzOk [] ∧ TzDrift [] := by
+  have hm : ∀ D s, mkDay [] D s = D * 86400 + s := by
+    intro D s; simp [mkDay, mkLocal, offAt]
+  have hl : ∀ t, localDay [] t = t / 86400 := by
+    intro t; simp [localDay, offAt]
+  refine ⟨⟨?_, ?_⟩, ?_⟩
+  · intro D; rw [hm, hm]; omega
+  · intro t; rw [hl, hm, hm]; omega
+  · intro D D' _; rw [hm, hm]; omega
+
+/-- **day_loop_covers.**  The day loop of `ScriptFunc` visits exactly the local calendar days from the
+    day of `begin` up to the last day whose midnight is not after `end`, each of them once and in
+    order — also across 23- and 25-hour days, and the fuel bound of the model is never what ends
+    the loop. -/
+theorem day_loop_covers (tz : Tz) (h : TzOk tz) (b e : Int) :
+    (∀ D, D ∈ loopDays tz e (loopFuel b e) (localDay tz b) ↔ localDay tz b ≤ D ∧ mkDay tz D 0 ≤ e) ∧
+    (loopDays tz e (loopFuel b e) (localDay tz b)).Pairwise (· < ·) :=
+  ⟨loopDays_mem tz h e _ _ (loopFuel_enough tz h b e), (loopDays_increasing tz e _ _).2⟩
+
+/-- **scriptFunc_spec.**  Whenever `ScriptFunc` (token-level core) returns, an instant lies in a returned
+    segment iff there are a local calendar day `D` of the window (from the day of `begin` to the
+    last day whose midnight is ≤ `end`), an entry whose day definition matches `D`, and one of its
+    ranges with `mk(D, b) ≤ t < mk(D, e')` (`e'` on the next day for ranges that wrap or end at 24:00).
+    For every entry list, window and time zone satisfying `TzOk`. -/
+theorem scriptFunc_spec (tz : Tz) (h : TzOk tz) (entries : List EntryTok) (b e : Int) (segs : List Seg)
+    (hr : scriptFuncTok tz entries b e = some segs) (t : Int) :
+    inside segs t = true ↔
+      ∃ D, localDay tz b ≤ D ∧ mkDay tz D 0 ≤ e ∧ ∃ en ∈ entries, EntryCovers tz en D t := by
+  unfold scriptFuncTok at hr
+  rw [dayLoop_spec tz entries e t _ _ segs hr]
+  have hm := (day_loop_covers tz h b e).1
+  constructor
+  · rintro ⟨D, hD, hc⟩
+    obtain ⟨h1, h2⟩ := (hm D).mp hD
+    exact ⟨D, h1, h2, hc⟩
+  · rintro ⟨D, h1, h2, hc⟩
+    exact ⟨D, (hm D).mpr ⟨h1, h2⟩, hc⟩
+
+/-- Non-vacuity: Mondays 09:00–17:00 and every day 22:00–02:00 (wrapping) around the Berlin change to
+    summer time; Sunday 2026-03-29 has 23 hours. -/
+example :
+    scriptFuncTok berlin2026
+      [{ dayDef := some { first := .weekday 1, second := none, stride := 1 }, ranges := some [(32400, 61200)] },
+       { dayDef := some { first := .date 2026 3 28, second := none, stride := 1 }, ranges := some [(79200, 7200)] }]
+      1774652400 1774911600
+      = some [(1774731600, 1774746000), (1774854000, 1774882800)] := by decide
+
+/-- **dayMatches_single.**  A definition without a second day matches exactly the day its
+    specification resolves to (the stride is irrelevant). -/
+theorem dayMatches_single (tz : Tz) (h : TzOk tz) (s : SpecTok) (stride D : Int) :
+    dayMatchesTok tz { first := s, second := none, stride := stride } D =
+      (resolveDay s D).map (fun d => decide (D = d)) := by
+  unfold dayMatchesTok dayDefSpan
+  cases hres : resolveDay s D with
+  | none => simp
+  | some d => simp [isInTimeRange_single tz h d stride D]
+
+/-- **dayMatches_weekday.**  "monday" matches exactly the Mondays. -/
+theorem dayMatches_weekday (tz : Tz) (h : TzOk tz) (w stride D : Int) (hw0 : 0 ≤ w) (hw7 : w < 7) :
+    dayMatchesTok tz { first := .weekday w, second := none, stride := stride } D =
+      some (decide (weekdayOf D = w)) := by
+  rw [dayMatches_single tz h]
+  simp only [resolveDay, Option.map_some, Option.some.injEq, decide_eq_decide]
+  unfold weekdayOf; omega
+
+/-- **dayMatches_date.**  "YYYY-MM-DD" matches exactly that calendar day. -/
+theorem dayMatches_date (tz : Tz) (h : TzOk tz) (y m d stride D : Int) :
+    dayMatchesTok tz { first := .date y m d, second := none, stride := stride } D =
+      some (decide (D = daysFromCivil y m d)) := by
+  rw [dayMatches_single tz h]; rfl
+
+/-- **dayMatches_nthWeekday.**  "monday 2 [month]" (n > 0) matches exactly the day that has that weekday
+    and lies in the n-th block of seven days of the month (of the reference year; the month of the
+    reference unless one is named). -/
+theorem dayMatches_nthWeekday (tz : Tz) (h : TzOk tz) (w n stride D : Int) (mon : Option Int)
+    (hw0 : 0 ≤ w) (hw7 : w < 7) (hn : 0 < n) :
+    let first := daysFromCivil (civilFromDays D).1 ((match mon with | some m => m | none => (civilFromDays D).2.1 - 1) + 1) 1
+    dayMatchesTok tz { first := .nthWeekday w n mon, second := none, stride := stride } D =
+      some (decide (weekdayOf D = w ∧ first + 7 * (n - 1) ≤ D ∧ D < first + 7 * n)) := by
+  intro first
+  rw [dayMatches_single tz h]
+  obtain ⟨day, hday, hwd, hpos, _⟩ := nth_weekday_correct w n (civilFromDays D).1
+    (match mon with | some m => m | none => (civilFromDays D).2.1 - 1) hw0 hw7 (by omega)
+  have hres : resolveDay (.nthWeekday w n mon) D = some day := by
+    simp only [resolveDay]; exact hday
+  rw [hres]
+  simp only [Option.map_some, Option.some.injEq, decide_eq_decide]
+  obtain ⟨hp1, hp2⟩ := hpos hn
+  unfold weekdayOf at *
+  constructor
+  · intro hD; subst hD; exact ⟨hwd, hp1, hp2⟩
+  · rintro ⟨a, b1, b2⟩
+    show D = day
+    have hp1' : first + 7 * (n - 1) ≤ day := hp1
+    have hp2' : day < first + 7 * n := hp2
+    omega
+
+/-- **dayMatches_range.**  A day range `A - B / stride` matches the days from the day `A` resolves to up to
+    the day `B` resolves to, every stride-th calendar day counted from the first. -/
+theorem dayMatches_range (tz : Tz) (h : TzOk tz) (hd : TzDrift tz) (s1 s2 : SpecTok) (stride D d1 d2 : Int)
+    (h1 : resolveDay s1 D = some d1) (h2 : resolveDay s2 D = some d2) :
+    dayMatchesTok tz { first := s1, second := some s2, stride := stride } D =
+      some (decide (d1 ≤ D) && decide (D ≤ d2) && (decide (stride ≤ 1) || (D - d1) % stride == 0)) := by
+  unfold dayMatchesTok dayDefSpan
+  simp only [h1, h2, isInTimeRange_days tz h hd, Option.some.injEq]
+  have : decide (D < d2 + 1) = decide (D ≤ d2) := by
+    rw [decide_eq_decide]; omega
+  rw [this]
 
 end Icinga.C08
